@@ -50,7 +50,9 @@ struct vfile {
 static struct vfile vfs[VFS_MAXFILES];
 static int vfs_n;
 static long vfs_clock = 1000;
-static struct { int used, file, flags; long off; } vfds[16];
+static struct { int used, file, flags, wrote, readc; long off; } vfds[16];
+/* called when the editor closes a VFS file: did = 1 read, 2 written, 3 both */
+static void (*nvx_close_hook)(struct vfile *f, int did);
 
 static struct vfile *vfs_find(const char *path)
 {
@@ -262,6 +264,7 @@ int __wrap_open(const char *path, int flags, ...)
 	vfds[i].file = f - vfs;
 	vfds[i].off = 0;
 	vfds[i].flags = flags;
+	vfds[i].wrote = vfds[i].readc = 0;
 	nvx_logcall(FK_OPEN, 0, VFS_FD0 + i);
 	return VFS_FD0 + i;
 }
@@ -292,6 +295,7 @@ ssize_t __wrap_read(int fd, void *buf, size_t n)
 			k = ft->count;
 		memcpy(buf, f->data + off, k);
 		vfds[fd - VFS_FD0].off += k;
+		vfds[fd - VFS_FD0].readc++;
 		nvx_logcall(FK_READ, n, k);
 		return k;
 	}
@@ -322,6 +326,7 @@ ssize_t __wrap_write(int fd, const void *buf, size_t n)
 			vfs_setlen(f, off + k);
 		memcpy(f->data + off, buf, k);
 		vfds[fd - VFS_FD0].off += k;
+		vfds[fd - VFS_FD0].wrote++;
 		f->mtime = vfs_clock;
 		f->writes++;
 		nvx_logcall(FK_WRITE, n, k);
@@ -340,6 +345,8 @@ int __wrap_close(int fd)
 		}
 		ft = nvx_fault_for(FK_CLOSE);
 		vfds[fd - VFS_FD0].used = 0;	/* the descriptor is gone even when close reports an error */
+		if (nvx_close_hook)
+			nvx_close_hook(&vfs[vfds[fd - VFS_FD0].file], (vfds[fd - VFS_FD0].readc ? 1 : 0) | (vfds[fd - VFS_FD0].wrote ? 2 : 0));
 		if (ft && ft->count < 0) {
 			nvx_logcall(FK_CLOSE, 0, -1);
 			errno = ft->err;
@@ -357,6 +364,7 @@ int __wrap_ftruncate(int fd, off_t len)
 		struct vfile *f = &vfs[vfds[fd - VFS_FD0].file];
 		vfs_setlen(f, len);
 		f->mtime = vfs_clock;
+		vfds[fd - VFS_FD0].wrote++;
 		return 0;
 	}
 	return __real_ftruncate(fd, len);
@@ -473,6 +481,16 @@ void __wrap_lbuf_edit(struct lbuf *lb, char *s, int beg, int end)
 	if (nvx_edit_hook)
 		nvx_edit_hook(lb, s, beg, end);
 	__real_lbuf_edit(lb, s, beg, end);
+}
+
+/* lbuf_rd() splices the file into the buffer with an lbuf_edit() call inside lbuf.c, which --wrap cannot see */
+int __real_lbuf_rd(struct lbuf *lb, int fd, int beg, int end);
+int __wrap_lbuf_rd(struct lbuf *lb, int fd, int beg, int end)
+{
+	int r = __real_lbuf_rd(lb, fd, beg, end);
+	if (!r)
+		nvx_splices++;
+	return r;
 }
 
 #define NVX_WRAPS "open", "read", "write", "close", "ftruncate", "stat", "access", "poll", "getc", "printf", \
